@@ -13,6 +13,9 @@
 (***************************************************************************)
 EXTENDS RxApi, Json, IOUtils, Bitwise
 
+CONSTANT Strict   \* FALSE: only what C03/C13 state (digests, FP word seen by the caller, no crash);
+                  \* TRUE: additionally the implementation decisions and internal state the model predicts
+
 TraceLog == ndJsonDeserialize(IOEnv.TRACE)
 VARIABLES l,
           rw      \* the word the library installs before the first program (learned from the trace, then fixed)
@@ -29,14 +32,14 @@ Masks(csr) == (csr \div 128) % 64      \* exception masks, bits 7-12
 \* (specs.md: fprc = 0), no exception unmasked, no flag pending, and the SAME word in every call
 \* of the trace whatever the entry state was (0x9FC0 in this implementation; FTZ/DAZ are the
 \* implementation's choice since no subnormal arises).
-ResetOk(csr) == /\ RcOf(csr) = 0 /\ Masks(csr) = 63 /\ Flags(csr) = 0
-                /\ (rw = -1 \/ rw = csr)
+ResetOk(csr) == Strict => (/\ RcOf(csr) = 0 /\ Masks(csr) = 63 /\ Flags(csr) = 0
+                           /\ (rw = -1 \/ rw = csr))
 LearnRw(csr) == rw' = csr
 \* after a program the word differs from the reset word only in rounding mode and sticky flags
-ProgsOk(ps, base) == Len(ps) = 8 /\ \A i \in 1..8 : ps[i] - Flags(ps[i]) - 8192 * RcOf(ps[i]) = base
+ProgsOk(ps, base) == Len(ps) = 8 /\ (Strict => \A i \in 1..8 : ps[i] - Flags(ps[i]) - 8192 * RcOf(ps[i]) = base)
 
 \* VM internals logged after create / set_cache / SetV2 equal the model's
-VmMatches(v) ==
+VmMatches(v) == Strict =>
   /\ vm'[v].v2 = Ev.v2
   /\ (IsCompiled(vm'[v].kind) => vm'[v].compV2 = Ev.compV2)
   /\ (IsLight(vm'[v].kind) => /\ vm'[v].cachePtr = Ev.cachePtr
@@ -46,13 +49,13 @@ VmMatches(v) ==
 \* the digest equals the fresh-object digest exactly when the specification says the provenance
 \* is clean (with the repaired binding rule it always is, so every digest must equal the fresh one)
 DigestOk == /\ Ev.fresh # "missing"
-            /\ (Clean(last'[1]) <=> Ev.out = Ev.fresh)
-            /\ Ev.canary
+            /\ Ev.out = Ev.fresh                                  \* C03: digest of fresh objects for (expected key, input, version)
+            /\ (Strict => Clean(last'[1]))
+            /\ Ev.canary                                          \* exactly 32 bytes written
 
 TAllocCache == /\ Is("AllocCache") /\ Ev.ok /\ AllocCache(Ev.c, Ev.s, Ev.m)
 TInitCache == /\ Is("InitCache") /\ InitCache(Ev.c, Ev.k)
-              /\ Ev.reinit = ~InitCacheSkips(Ev.c, Ev.k)
-              /\ Ev.keyAfter = Ev.k
+              /\ (Strict => (Ev.reinit = ~InitCacheSkips(Ev.c, Ev.k) /\ Ev.keyAfter = Ev.k))
 TReleaseCache == Is("ReleaseCache") /\ ReleaseCache(Ev.c)
 TAppMalloc == Is("AppMalloc") /\ AppMalloc(Ev.s)
 TAppFree == Is("AppFree") /\ AppFree(Ev.s)
@@ -64,7 +67,7 @@ TCreateVm == /\ Is("CreateVm") /\ Ev.ok
                 ELSE CreateVmFull(Ev.v, Ev.kind, Ev.d, Ev.v2)
              /\ VmMatches(Ev.v)
 TSetCache == /\ Is("SetCache") /\ SetCache(Ev.v, Ev.c)
-             /\ Ev.rebind = RebindNeeded(Ev.v, Ev.c)
+             /\ (Strict => Ev.rebind = RebindNeeded(Ev.v, Ev.c))
              /\ VmMatches(Ev.v)
 TSetDataset == Is("SetDataset") /\ SetDataset(Ev.v, Ev.d)
 TSetV2 == Is("SetV2") /\ SetV2(Ev.v, Ev.on) /\ VmMatches(Ev.v)
